@@ -13,3 +13,4 @@ import PC.Props.C18
 import PC.Props.C11
 import PC.Props.C17
 import PC.Props.C13
+import PC.Props.C14
